@@ -125,6 +125,23 @@ func (fr *Frame) loopCut(b *ssa.BasicBlock, ord int, ci *cfgInfo) {
 			fr.st.regs[a] = fr.freshTyped("lp."+a.Comment, a.Type().(*types.Pointer).Elem())
 		}
 	}
+	if c := fr.C; c != nil {
+		for _, oc := range c.OnCalls {
+			if !eff.called[oc.Callee] {
+				continue
+			}
+			for _, gv := range c.GhostVars {
+				if gv.Name != oc.Var {
+					continue
+				}
+				ty, err := r.Eng.ResolveType(gv.Type, c.PkgPath)
+				if err != nil {
+					r.unsupported("%v", err)
+				}
+				fr.st.ghost["gv."+gv.Name] = fr.freshTyped("lp.gv."+gv.Name, ty)
+			}
+		}
+	}
 	if c := r.Contract; c != nil {
 		for _, tr := range c.Tracks {
 			if !eff.called[tr.Callee] {
